@@ -137,6 +137,14 @@ func decorate(rng *Rng, w *World) {
 			c.Modes = map[string]uint32{"bin/run.sh": uint32(rng.Pick([]string{"\x1ed", "\x01\xed", "\x01\x80", "\x01\x24"})[0])}
 			c.Modes["bin/run.sh"] = []uint32{0o755, 0o700, 0o600, 0o444, 0o640}[rng.Intn(5)]
 		}
+		if rng.Chance(25) {
+			// permission bits all zero (readable by root only): they must come back as they are
+			c.Extra["keys/locked.pem"] = "k"
+			if c.Modes == nil {
+				c.Modes = map[string]uint32{}
+			}
+			c.Modes["keys/locked.pem"] = 0
+		}
 		if rng.Chance(40) {
 			c.Links = map[string]string{"readme-link": "README"}
 			if rng.Chance(50) {
